@@ -537,7 +537,9 @@ func TestC17Sequences(t *testing.T) {
 		}
 		c.NonTrivial()
 		c.Shape(fmt.Sprintf("seq/%s/%d/%v", base, len(seq), seq[0]))
-		c.Sample(func() interface{} { return map[string]interface{}{"kind": "sequence of related derivations", "pairs": fmt.Sprint(seq)} })
+		c.Sample(func() interface{} {
+			return map[string]interface{}{"kind": "sequence of related derivations", "pairs": fmt.Sprint(seq)}
+		})
 		c.Done()
 	})
 }
